@@ -1731,4 +1731,338 @@ theorem stepOp_stopped {cfg : Cfg} {w w1 : World} {o : Op} {chs : List Change} (
   · rfl
   · simp [hik]
 
+/-! ### keys: every key in a stored or published document was in one before, or is fresh -/
+
+/-- `k` occurs in a stored version or in a published document -/
+def UsedKey (w : World) (k : Nat) : Prop :=
+  (∃ r ∈ w.dids, ∃ v ∈ r.vers, k ∈ v.c.vms) ∨ (∃ d, ∃ c ∈ w.pub d, k ∈ c.vms)
+
+/-- the contents of the versions of `dids'` are contents of versions of `dids` -/
+def ContentSub (dids' dids : List DidRow) : Prop :=
+  ∀ r' ∈ dids', ∀ v' ∈ r'.vers, ∃ r ∈ dids, ∃ v ∈ r.vers, v'.c = v.c
+
+theorem ContentSub.refl (d : List DidRow) : ContentSub d d := fun r hr v hv => ⟨r, hr, v, hv, rfl⟩
+
+theorem ContentSub.trans {a b c : List DidRow} (h1 : ContentSub a b) (h2 : ContentSub b c) : ContentSub a c := by
+  intro r hr v hv
+  rcases h1 r hr v hv with ⟨r1, hr1, v1, hv1, e1⟩
+  rcases h2 r1 hr1 v1 hv1 with ⟨r2, hr2, v2, hv2, e2⟩
+  exact ⟨r2, hr2, v2, hv2, e1.trans e2⟩
+
+theorem contentSub_deleteChanges (cfg : Cfg) (chs : List Change) (w : World) :
+    ContentSub (deleteChanges cfg chs w).dids w.dids := by
+  intro r' hr' v' hv'
+  unfold deleteChanges at hr'
+  simp only at hr'
+  have hm : r' ∈ w.dids.map (dropVersions chs) := by
+    split at hr'
+    · exact (List.mem_filter.1 hr').1
+    · exact hr'
+  rcases List.mem_map.1 hm with ⟨r, hr, rfl⟩
+  exact ⟨r, hr, v', (List.mem_filter.1 hv').1, rfl⟩
+
+theorem contentSub_deleteLogTx (t : Nat) (w : World) : ContentSub (deleteLogTx t w).dids w.dids := by
+  intro r' hr' v' hv'
+  rw [deleteLogTx_dids] at hr'
+  rcases List.mem_map.1 hr' with ⟨r, hr, rfl⟩
+  rcases List.mem_map.1 hv' with ⟨v, hv, rfl⟩
+  exact ⟨r, hr, v, hv, clearTx_c t v⟩
+
+theorem contentSub_sweepApply (cfg : Cfg) (w : World) (group : List Change) (t : Nat) (b : Bool) :
+    ContentSub (sweepApply cfg w group t b).dids w.dids := by
+  unfold sweepApply
+  cases b with
+  | true => exact contentSub_deleteLogTx t w
+  | false => exact ContentSub.trans (contentSub_deleteLogTx t _) (contentSub_deleteChanges cfg group w)
+
+theorem contentSub_sweepTxs (cfg : Cfg) (old : List Change) : ∀ (ts : List Nat) (w w' : World),
+    sweepTxs cfg old ts w = .ok w' → ContentSub w'.dids w.dids ∧ w'.pub = w.pub ∧ w'.next = w.next
+  | [], w, w', h => by
+    simp only [sweepTxs, Res.ok.injEq] at h; subst h; exact ⟨ContentSub.refl _, rfl, rfl⟩
+  | t :: ts, w, w', h => by
+    unfold sweepTxs at h
+    simp only at h
+    split at h
+    · rename_i b _
+      have ih := contentSub_sweepTxs cfg old ts _ w' h
+      have hf := sweepApply_fields cfg w (old.filter (fun ch => ch.tx = t)) t b
+      exact ⟨ContentSub.trans ih.1 (contentSub_sweepApply cfg w _ t b), by rw [ih.2.1, hf.2.1], by rw [ih.2.2, hf.1]⟩
+    · cases h
+    · cases h
+
+theorem sweep_sub (cfg : Cfg) (ord : List Nat → List Nat) (w : World) :
+    ContentSub (sweep cfg ord w).1.dids w.dids ∧ (sweep cfg ord w).1.pub = w.pub ∧ (sweep cfg ord w).1.next = w.next := by
+  unfold sweep
+  simp only
+  split
+  · rename_i w' hw'
+    exact contentSub_sweepTxs cfg _ _ w w' hw'
+  · exact ⟨ContentSub.refl _, rfl, rfl⟩
+  · exact ⟨ContentSub.refl _, rfl, rfl⟩
+
+theorem used_of_sub {w w' : World} (hs : ContentSub w'.dids w.dids) (hp : w'.pub = w.pub) {k : Nat}
+    (h : UsedKey w' k) : UsedKey w k := by
+  rcases h with ⟨r', hr', v', hv', hk⟩ | ⟨d, c, hc, hk⟩
+  · rcases hs r' hr' v' hv' with ⟨r, hr, v, hv, e⟩
+    exact Or.inl ⟨r, hr, v, hv, e ▸ hk⟩
+  · exact Or.inr ⟨d, c, hp ▸ hc, hk⟩
+
+theorem rowOp_vms {o : Op} {fresh : Nat} {cur : Option Content} {c : Content} (h : rowOp o fresh cur = some c) :
+    ∀ k ∈ c.vms, k = fresh ∨ ∃ c0, cur = some c0 ∧ k ∈ c0.vms := by
+  intro k hk
+  cases o with
+  | create s => cases cur <;> simp [rowOp] at h
+  | deactivate s =>
+    have : c = Content.empty := by cases cur <;> simp [rowOp] at h <;> exact h.symm
+    subst this; simp [Content.empty] at hk
+  | addSvc s a =>
+    cases cur with
+    | none => simp [rowOp] at h
+    | some c0 =>
+      simp only [rowOp] at h
+      split at h
+      · cases h
+      · cases h; exact Or.inr ⟨c0, rfl, hk⟩
+  | updSvc s a b =>
+    cases cur with
+    | none => simp [rowOp] at h
+    | some c0 => simp only [rowOp, Option.some.injEq] at h; subst h; exact Or.inr ⟨c0, rfl, hk⟩
+  | delSvc s a =>
+    cases cur with
+    | none => simp [rowOp] at h
+    | some c0 => simp only [rowOp, Option.some.injEq] at h; subst h; exact Or.inr ⟨c0, rfl, hk⟩
+  | addKey s =>
+    cases cur with
+    | none => simp [rowOp] at h
+    | some c0 =>
+      simp only [rowOp, Option.some.injEq] at h
+      subst h
+      simp only [List.mem_append, List.mem_singleton] at hk
+      rcases hk with hk | hk
+      · exact Or.inr ⟨c0, rfl, hk⟩
+      · exact Or.inl hk
+
+theorem tx1_keys {cfg : Cfg} {w w1 : World} {o : Op} {chs : List Change} (ht : tx1 cfg w o = .ok (w1, chs)) :
+    (∀ r' ∈ w1.dids, ∀ v' ∈ r'.vers, ∀ k ∈ v'.c.vms, UsedKey w k ∨ w.next ≤ k) ∧
+    (∀ ch ∈ chs, ∀ k ∈ ch.c.vms, UsedKey w k ∨ w.next ≤ k) ∧ w1.pub = w.pub ∧ w.next ≤ w1.next := by
+  by_cases hcr : ∃ s, o = .create s
+  · rcases hcr with ⟨s, rfl⟩
+    rcases tx1Create_ok (show tx1Create cfg w s = .ok (w1, chs) from ht) with ⟨hd, hn, hp, _, hchs, _⟩
+    refine ⟨?_, ?_, hp, by omega⟩
+    · rw [hd]
+      intro r' hr' v' hv' k hk
+      rcases List.mem_append.1 hr' with ho | hn'
+      · exact Or.inl (Or.inl ⟨r', ho, v', hv', hk⟩)
+      · rcases List.mem_map.1 hn' with ⟨m, _, rfl⟩
+        simp only [newDid, List.mem_singleton] at hv'
+        subst hv'
+        simp only [List.mem_singleton] at hk
+        right; omega
+    · rw [hchs]
+      intro ch hch k hk
+      rcases List.mem_map.1 hch with ⟨m, _, rfl⟩
+      simp only [createdChange, List.mem_singleton] at hk
+      right; omega
+  · have hnc : ∀ s, o ≠ .create s := fun s he => hcr ⟨s, he⟩
+    rw [tx1_is_update cfg w o hnc] at ht
+    rcases tx1Update_ok ht with ⟨hd, hn, hp, _, hchs⟩
+    have newC : ∀ r ∈ w.dids, ∀ c, newContent o w.next r = some c → ∀ k ∈ c.vms, UsedKey w k ∨ w.next ≤ k := by
+      intro r hr c hc k hk
+      unfold newContent at hc
+      split at hc
+      · rcases rowOp_vms hc k hk with rfl | ⟨c0, hc0, hk0⟩
+        · right; omega
+        · cases hv : r.vers with
+          | nil => rw [hv] at hc0; cases hc0
+          | cons v vs =>
+            rw [hv] at hc0
+            simp only [List.head?_cons, Option.map_some, Option.some.injEq] at hc0
+            subst hc0
+            exact Or.inl (Or.inl ⟨r, hr, v, by rw [hv]; exact List.mem_cons_self .., hk0⟩)
+      · cases hc
+    refine ⟨?_, ?_, hp, by omega⟩
+    · rw [hd]
+      intro r' hr' v' hv' k hk
+      rcases List.mem_map.1 hr' with ⟨r, hr, rfl⟩
+      unfold pushRow at hv'
+      cases hnc' : newContent o w.next r with
+      | none => rw [hnc'] at hv'; exact Or.inl (Or.inl ⟨r, hr, v', hv', hk⟩)
+      | some c =>
+        rw [hnc'] at hv'
+        rcases List.mem_cons.1 hv' with rfl | hin
+        · exact newC r hr c hnc' k hk
+        · exact Or.inl (Or.inl ⟨r, hr, v', hin, hk⟩)
+    · rw [hchs]
+      intro ch hch k hk
+      rcases List.mem_filterMap.1 hch with ⟨r, hr, hc⟩
+      unfold changeOf at hc
+      cases hnc' : newContent o w.next r with
+      | none => rw [hnc'] at hc; cases hc
+      | some c =>
+        rw [hnc'] at hc
+        simp only [Option.map_some, Option.some.injEq] at hc
+        subst hc
+        exact newC r hr c hnc' k hk
+
+theorem commitNuts_sub {pub pub' : Nat → List Content} {ch : Change} (h : commitNuts pub ch = .ok pub') :
+    ∀ d c, c ∈ pub' d → c ∈ pub d ∨ c = ch.c ∨ c.vms = [] := by
+  have pubd : ∀ (c0 : Content) d c, c ∈ publish pub ch.did c0 d → c ∈ pub d ∨ c = c0 := by
+    intro c0 d c hc
+    unfold publish at hc
+    split at hc
+    · rename_i he
+      rcases List.mem_cons.1 hc with rfl | hin
+      · exact Or.inr rfl
+      · exact Or.inl (he ▸ hin)
+    · exact Or.inl hc
+  intro d c hc
+  unfold commitNuts at h
+  split at h
+  · cases h
+    rcases pubd _ d c hc with h1 | h1
+    · exact Or.inl h1
+    · exact Or.inr (Or.inl h1)
+  · split at h
+    · cases h
+    · split at h
+      · cases h; exact Or.inl hc
+      · split at h
+        · cases h
+        · cases h
+          rcases pubd _ d c hc with h1 | h1
+          · exact Or.inl h1
+          · exact Or.inr (Or.inl h1)
+  · split at h
+    · cases h
+    · split at h
+      · cases h
+      · cases h
+        rcases pubd _ d c hc with h1 | h1
+        · exact Or.inl h1
+        · exact Or.inr (Or.inr (by rw [h1]; rfl))
+
+theorem commitLoop_pub_sub (f : Fault) (chs : List Change) : ∀ (order : List Method) (i : Nat) (pub : Nat → List Content),
+    ∀ d c, c ∈ (commitLoop f chs order i pub).1 d → c ∈ pub d ∨ c.vms = [] ∨ ∃ ch ∈ chs, c = ch.c
+  | [], _, _, _, _, hc => Or.inl hc
+  | m :: ms, i, pub, d, c, hc => by
+    unfold commitLoop at hc
+    split at hc
+    · exact commitLoop_pub_sub f chs ms i pub d c hc
+    · rename_i ch hfind
+      have hmem : ch ∈ chs := List.mem_of_find?_eq_some hfind
+      split at hc
+      · exact Or.inl hc
+      · cases m with
+        | web => exact commitLoop_pub_sub f chs ms (i + 1) pub d c hc
+        | nuts =>
+          simp only at hc
+          split at hc
+          · exact Or.inl hc
+          · split at hc
+            · rename_i pub' hcn
+              rcases commitLoop_pub_sub f chs ms (i + 1) pub' d c hc with h1 | h1
+              · rcases commitNuts_sub hcn d c h1 with h2 | h2 | h2
+                · exact Or.inl h2
+                · exact Or.inr (Or.inr ⟨ch, hmem, h2⟩)
+                · exact Or.inr (Or.inl h2)
+              · exact Or.inr h1
+            · exact Or.inl hc
+            · exact Or.inl hc
+
+theorem tx2_sub (cfg : Cfg) (w : World) (chs : List Change) (b : Bool) :
+    ContentSub (tx2 cfg w chs b).dids w.dids ∧ (tx2 cfg w chs b).pub = w.pub ∧ (tx2 cfg w chs b).next = w.next := by
+  unfold tx2
+  cases b with
+  | true => exact ⟨contentSub_deleteChanges cfg chs w, rfl, rfl⟩
+  | false =>
+    simp only [Bool.false_eq_true, if_false]
+    cases chs with
+    | nil => exact ⟨ContentSub.refl _, rfl, rfl⟩
+    | cons ch _ => exact ⟨contentSub_deleteLogTx ch.tx w, rfl, rfl⟩
+
+/-- one operation: every key in a stored or published document afterwards was in one before, or is fresh -/
+theorem used_stepOp (cfg : Cfg) (w : World) (o : Op) (order : List Method) (f : Fault) (k : Nat)
+    (h : UsedKey (stepOp cfg w o order f).1 k) :
+    (UsedKey w k ∨ w.next ≤ k) ∧ w.next ≤ (stepOp cfg w o order f).1.next := by
+  unfold stepOp at h ⊢
+  split
+  · rename_i e he; rw [he] at h; exact ⟨Or.inl h, Nat.le_refl _⟩
+  · rename_i e he; rw [he] at h; exact ⟨Or.inl h, Nat.le_refl _⟩
+  · rename_i w1 chs ht
+    rw [ht] at h
+    simp only at h
+    have hk := tx1_keys ht
+    have hpubsub := commitLoop_pub_sub f chs order 0 w1.pub
+    -- whatever branch: the rows are contents of w1's rows, the publications come from the commit loop
+    have core : ∀ (wr : World), ContentSub wr.dids w1.dids → wr.pub = (commitLoop f chs order 0 w1.pub).1 →
+        UsedKey wr k → UsedKey w k ∨ w.next ≤ k := by
+      intro wr hsub hpub hu
+      rcases hu with ⟨r', hr', v', hv', hkv⟩ | ⟨d, c, hc, hkc⟩
+      · rcases hsub r' hr' v' hv' with ⟨r, hr, v, hv, e⟩
+        exact hk.1 r hr v hv k (e ▸ hkv)
+      · rw [hpub] at hc
+        rcases hpubsub d c hc with h1 | h1 | ⟨ch, hch, rfl⟩
+        · rw [hk.2.2.1] at h1
+          exact Or.inl (Or.inr ⟨d, c, h1, hkc⟩)
+        · rw [h1] at hkc; cases hkc
+        · exact hk.2.1 ch hch k hkc
+    rcases hcl : commitLoop f chs order 0 w1.pub with ⟨pub, ph⟩
+    rw [hcl] at h core
+    simp only at h core
+    cases ph with
+    | stopped => exact ⟨core { w1 with pub := pub } (ContentSub.refl _) rfl h, hk.2.2.2⟩
+    | failed e =>
+      have hs := tx2_sub cfg { w1 with pub := pub } chs true
+      exact ⟨core _ hs.1 hs.2.1 h, by simp only; rw [hs.2.2]; exact hk.2.2.2⟩
+    | completed i =>
+      have hs := tx2_sub cfg { w1 with pub := pub } chs false
+      simp only at h ⊢
+      split at h
+      · rename_i k' 
+        split at h
+        · rename_i hik; simp only [hik, if_true]; exact ⟨core { w1 with pub := pub } (ContentSub.refl _) rfl h, hk.2.2.2⟩
+        · rename_i hik; simp only [hik, if_false]; exact ⟨core _ hs.1 hs.2.1 h, by rw [hs.2.2]; exact hk.2.2.2⟩
+      · exact ⟨core _ hs.1 hs.2.1 h, by rw [hs.2.2]; exact hk.2.2.2⟩
+
+/-- any continuation: operations (any fault, any order), ticks, sweeps, restamps -/
+inductive Steps (cfg : Cfg) : World → World → Prop
+  | refl (w : World) : Steps cfg w w
+  | op {w w' : World} (o : Op) (order : List Method) (f : Fault) : Steps cfg w w' → Steps cfg w (stepOp cfg w' o order f).1
+  | tick {w w' : World} (d : Nat) : Steps cfg w w' → Steps cfg w (tick d w')
+  | sweep {w w' : World} (ord : List Nat → List Nat) : Steps cfg w w' → Steps cfg w (sweep cfg ord w').1
+  | restamp {w w' : World} (f : DidRow → Ver → Nat) : Steps cfg w w' → Steps cfg w (restamp f w')
+
+theorem used_restamp (f : DidRow → Ver → Nat) (w : World) (k : Nat) (h : UsedKey (restamp f w) k) : UsedKey w k := by
+  rcases h with ⟨r', hr', v', hv', hk⟩ | h
+  · rw [restamp_dids] at hr'
+    rcases List.mem_map.1 hr' with ⟨r, hr, rfl⟩
+    rcases List.mem_map.1 hv' with ⟨v, hv, rfl⟩
+    exact Or.inl ⟨r, hr, v, hv, hk⟩
+  · exact Or.inr h
+
+/-- a key below the counter that no stored or published document contains now is in none ever after -/
+theorem steps_keys {cfg : Cfg} {w w' : World} (h : Steps cfg w w') :
+    w.next ≤ w'.next ∧ ∀ k, k < w.next → UsedKey w' k → UsedKey w k := by
+  induction h with
+  | refl => exact ⟨Nat.le_refl _, fun _ _ h => h⟩
+  | op o order f _ ih =>
+    refine ⟨?_, ?_⟩
+    · have : ∀ w'' : World, w''.next ≤ (stepOp cfg w'' o order f).1.next := by
+        intro w''
+        rcases stepOp_cases cfg w'' o order f with he | ⟨w1, chs, pub, ht, he | he | he⟩ <;> rw [he]
+        · exact Nat.le_refl _
+        · exact (tx1_keys ht).2.2.2
+        · rw [(tx2_sub cfg _ chs true).2.2]; exact (tx1_keys ht).2.2.2
+        · rw [(tx2_sub cfg _ chs false).2.2]; exact (tx1_keys ht).2.2.2
+      exact Nat.le_trans ih.1 (this _)
+    · intro k hk hu
+      rcases (used_stepOp cfg _ o order f k hu).1 with h1 | h1
+      · exact ih.2 k hk h1
+      · omega
+  | tick d _ ih => exact ih
+  | @sweep wm ord _ ih =>
+    have hs := sweep_sub cfg ord wm
+    exact ⟨by rw [hs.2.2]; exact ih.1, fun k hk hu => ih.2 k hk (used_of_sub hs.1 hs.2.1 hu)⟩
+  | @restamp wm f _ ih => exact ⟨ih.1, fun k hk hu => ih.2 k hk (used_restamp f wm k hu)⟩
+
 end Nuts.C13
